@@ -58,11 +58,11 @@ class SymMem:
 class X86State:
     def __init__(self):
         self.r = {}; self.fl = {'cf': None, 'zf': None, 'sf': None, 'of': None}; self.mem = None
-        self.ip = 0; self.pc = []; self.log = []; self.events = []; self.steps = 0; self.obligations = []
+        self.ip = 0; self.pc = []; self.log = []; self.events = []; self.steps = 0; self.obligations = []; self.writes = ()
     def fork(self):
         s = X86State(); s.r = dict(self.r); s.fl = dict(self.fl); s.mem = self.mem.copy(); s.ip = self.ip
         s.pc = list(self.pc); s.log = list(self.log); s.events = list(self.events); s.steps = self.steps
-        s.obligations = list(self.obligations)
+        s.obligations = list(self.obligations); s.writes = self.writes
         return s
 
 
@@ -210,6 +210,7 @@ class X86:
         if I.mod == 3: self.setr(st, I.rm, val, w)
         else:
             a = self.ea(st, I); st.log.append((kind, a, w // 8)); self.note_access(st, a, w // 8); st.mem.store(a, val, w // 8)
+            st.writes = st.writes + ((a, val, w // 8),)
     def note_access(self, st, a, n):
         if st.mem.stack_rid is not None and not st.mem.is_stack(a) and self.rsp0 is not None:
             st.obligations.append(('data-access-outside-native-stack', Or(ULE(a + n, self.rsp0 - 8192), UGE(a, self.rsp0 + 4096)), st.ip))
